@@ -66,6 +66,11 @@ claimed = {
   text="rapid generates programs of 8-30 independent units mixing unconditional, conditional, loop and range-over-func defers with argument snapshotting, named-result updates, recoverers, re-panics, nested deferred calls, panics, run-time faults, early returns and Goexit, on the main goroutine and in goroutines; every program is built by gc and by the llgo under test (O0 + O2, or O0 + Oz with runtime imported) and traces are compared unit by unit. Exploration only.",
   note="gc output is the reference; recover from a helper frame is confined to dedicated units (listed finding); recoverers registered inside range-over-func bodies are not generated (unsettled corner policed by gc's own run-time check).",
   design="§3 C04"),
+ "C12": dict(
+  technique="differential testing of rapid-generated multi-package modules (initialisation-order grammar) against gc",
+  text="rapid generates modules of 2-8 packages in an import DAG with multi-file packages, dependency-reordered package-level initialisers (direct, through functions, across packages, in closures), several init functions per file, blank imports and packages reachable along several paths; a quarter also initialise through overlaid std packages. The trace of the llgo-built program (O0, O2; thorough adds Oz, O2+nogc) must equal gc's. Exploration only.",
+  note="gc defines the order; build mode exe only; the relative order of packages that do not depend on one another is a listed finding and is compared per package in that case.",
+  design="§3 C12"),
 }
 not_yet = "check not built yet in this session (see DESIGN.md §3 for the planned generated-input check)"
 
